@@ -336,6 +336,7 @@ def run(ctx):
         unguard()
         uninstall()
     if ctx.shard == 0:
+        option_cost_relation(ctx, P)
         concurrent_calls(ctx, P, PP, ctx.rng)
         # the outcome is a function of the arguments, the default and the *current* process time zone: switching TZ between
         # calls (same abbreviations, other offsets) must not leave anything behind in the module-level or an instance parser
@@ -468,6 +469,35 @@ def long_inputs(ctx, st, lc, P, rng):
             for kw in ({}, {'fuzzy': True}, {'fuzzy_with_tokens': True}):
                 one_case(ctx, st, lc, P, text, ['long-' + name], 'str', kw, None, ['long'])
                 ctx.count('long_inputs')
+
+
+def option_cost_relation(ctx, P):
+    """fuzzy_with_tokens does the work of fuzzy plus the bookkeeping of the skipped tokens: on a long text with tens of
+    thousands of skipped tokens its CPU time must stay within a small factor of fuzzy's.  (The line counter cannot see a
+    cost that hides in C-level operations; this is a relation between two calls measured in process CPU time back to back,
+    with generous slack, not a wall-clock deadline.)"""
+    import time as _t
+    text = 'x99' * 20000 + 'x 10:30 on 3 May 2020'
+    best = None
+    for attempt in range(3):
+        t0 = _t.process_time()
+        a = P.parse(text, fuzzy=True)
+        t1 = _t.process_time()
+        b = P.parse(text, fuzzy_with_tokens=True)
+        t2 = _t.process_time()
+        plain, with_tokens = t1 - t0, t2 - t1
+        ctx.ev()
+        ctx.count('option_cost_relations')
+        if best is None or with_tokens < best[1]:
+            best = (plain, with_tokens)
+        if a != b[0]:
+            ctx.violation('fuzzy-relation', {'workload': 'option-cost', 'text': 'x99 * 20000 + date'}, 'fuzzy %r, with tokens %r' % (a, b[0]))
+        if with_tokens <= 8 * plain + 1.0:
+            break
+    else:
+        ctx.violation('not-prompt', {'workload': 'option-cost', 'text': "'x99' * 20000 + 'x 10:30 on 3 May 2020'", 'options': ['fuzzy_with_tokens']},
+                      'fuzzy_with_tokens needed %.2f s of CPU time where fuzzy needed %.2f s on the same text (best of 3)' % (best[1], best[0]))
+    ctx.note('option_cost_cpu_seconds', {'fuzzy': round(best[0], 3), 'fuzzy_with_tokens': round(best[1], 3)})
 
 
 def non_text(ctx, st, P):
